@@ -316,6 +316,29 @@ def gen_listing_rows(tape):
     return ('\r\n'.join(rows) + '\r\n').encode('utf-8', 'surrogateescape')
 
 
+def gen_mlsd_rows(tape):
+    """MLSD rows (RFC 3659) with mutated facts."""
+    rng = tape.subrng('mlsd.rng')
+    modify = ['20180101000000', '20180101000000.5', '20180101000000.1234567', '20180101000000.123456789012', '2018', '99999999999999', '00000000000000',
+              '20181301000000', '20180132000000', '20180101250000', 'abcdefghijklmn', '', '20180101000000.', '-0180101000000', '2018010100000\u0660']
+    size = ['10', '0', '-1', '1e3', '99999999999999999999999', 'abc', '', '1_0', '\u0661\u0662']
+    typ = ['file', 'dir', 'cdir', 'pdir', 'OS.unix=slink:/x', '', 'FILE', 'x' * 300]
+    rows = []
+    for _ in range(tape.between(1, 4, 'mlsd.nrows')):
+        facts = []
+        if rng.random() < 0.9:
+            facts.append('%s=%s' % (rng.choice(['type', 'Type', 'TYPE']), rng.choice(typ)))
+        if rng.random() < 0.8:
+            facts.append('size=%s' % rng.choice(size))
+        if rng.random() < 0.9:
+            facts.append('%s=%s' % (rng.choice(['modify', 'Modify']), rng.choice(modify)))
+        if rng.random() < 0.3:
+            facts.append(rng.choice(['perm=', 'unique=\x00', '=novalue', 'nokey', ';;', 'UNIX.mode=0644']))
+        name = rng.choice(['a.txt', 'sub', '', ' ', 'x' * 300, '\xe9', 'a;b=c', ' leading'])
+        rows.append(';'.join(facts) + '; ' + name)
+    return ('\r\n'.join(rows) + '\r\n').encode('utf-8', 'surrogateescape')
+
+
 def layer_ftp(tape, r):
     fetches, user, pw, plan = hftp.gen_script(tape, False)
     nm = tape.between(1, 2, 'ftp.nmut')
@@ -343,11 +366,16 @@ def layer_ftp(tape, r):
                 pass
     listing = None
     if tape.chance(1, 2, 'ftp.listing'):
-        if tape.chance(1, 2, 'ftp.listing.gen'):
-            listing = gen_listing_rows(tape)
-        else:
+        k = tape.draw(4, 'ftp.listing.gen')
+        if k == 0:
             listing = FTP_BAD_LISTINGS[tape.draw(len(FTP_BAD_LISTINGS), 'ftp.listing.k')]
-        plan['mlsd'] = tape.chance(1, 3, 'ftp.listing.mlsd')       # mostly LIST: that is where the heuristics parsers run
+            plan['mlsd'] = tape.chance(1, 3, 'ftp.listing.mlsd')
+        elif k == 1:
+            listing = gen_mlsd_rows(tape)
+            plan['mlsd'] = True                                    # machine listing parser
+        else:
+            listing = gen_listing_rows(tape)
+            plan['mlsd'] = False                                   # LIST: that is where the heuristics parsers run
         for fx in fetches:
             fx['kind'] = 'listing'
         r.probes['ftp_listing_mutated'] += 1
